@@ -270,19 +270,8 @@ func checkC01(c *Ctx, r *Report) {
 			return []skipSpec{
 				{TypeSwitchMiss: true, Cond: func(ast.Expr) bool { return false }, Desc: "declaration is not a *ast.FuncDecl"},
 				{Cond: isRecv, Pol: false, Desc: "function is not a receiver of the controller"},
-				{Cond: func(e ast.Expr) bool {
-					be, ok := e.(*ast.BinaryExpr)
-					if !ok || be.Op != token.EQL {
-						return false
-					}
-					x, ok1 := be.X.(*ast.Ident)
-					y, ok2 := be.Y.(*ast.Ident)
-					if !ok1 || !ok2 || y.Name != "nil" {
-						return false
-					}
-					t := fi.Pkg.TypesInfo.TypeOf(x)
-					return t != nil && short(types.TypeString(t, nil)) == "*core/metadata.ReceiverMeta"
-				}, Pol: true, Desc: "VisitMethod returned nil (not an API endpoint)"},
+				{Cond: w.nilTestOf(fi, "*core/metadata.ReceiverMeta"), Pol: true, Desc: "VisitMethod returned nil (not an API endpoint)"},
+				{Cond: w.commaOkOf(fi, "assert", "*go/ast.FuncDecl"), Pol: false, Desc: "declaration is not a *ast.FuncDecl (comma-ok form)"},
 			}
 		}, true,
 		"every receiver for which VisitMethod yields metadata is appended to the controller")
